@@ -95,7 +95,8 @@ pub fn gen(seed: u64, thorough: bool, only: Option<u64>, out: &mut Out) {
     } else {
       *r.pick(&[1, 2, 3, 4, 5, 7, 8, 12, 16, 40])
     };
-    let t = if g == 0 { 0 } else { t };
+    // fixed groups: threshold 0, and thresholds at and just above 2^8 (a narrowed threshold shows there)
+    let t = match g { 0 => 0, 1 => 256, 2 => 257, _ => t };
     let k = if thorough { r.below(17) as usize } else { r.below(5) as usize };
     let k = if t > 100 { k.min(2) } else { k };
     let mut secret = vec![];
@@ -124,7 +125,7 @@ pub fn gen(seed: u64, thorough: bool, only: Option<u64>, out: &mut Out) {
       ws.extend([1u64, 0, 0]);
     }
     let n_iter = (t as usize).max(1) + r.below(3) as usize;
-    let n_iter = n_iter.min(if thorough { 610 } else { 48 });
+    let n_iter = n_iter.min(if thorough { 610 } else if t >= 256 { 260 } else { 48 });
     let mut rng = ScriptRng::new(ws.clone());
     let sharks = Sharks(t);
     let dealt = guarded(|| match sharks.dealer_rng(&secret, &mut rng) {
@@ -182,7 +183,12 @@ pub fn gen(seed: u64, thorough: bool, only: Option<u64>, out: &mut Out) {
     let mut all: Vec<Vec<u8>> = enc.clone();
     all.push(genc.clone());
     let mut idx: Vec<usize> = (0..all.len()).collect();
+    // (quick tier, thresholds above 2^8: the model's per-term inversions make a full recovery take ~45 s, so only
+    //  the dealing and the one-short refusal are compared there; the thorough tier runs all variants)
     for variant in 0..4 {
+      if !thorough && t >= 256 && variant != 3 {
+        continue;
+      }
       r.shuffle(&mut idx);
       let mut sel: Vec<usize> = match variant {
         0 => idx[..t as usize].to_vec(),
